@@ -280,7 +280,8 @@ func init() {
 					if r.running {
 						conn, err := varlink.NewConnection(ctx, r.addr)
 						if err != nil {
-							return err
+							ops = append(ops, opRec{kind: "openfailed"})
+							continue
 						}
 						if !r.waitCounter(int64(len(r.conns) + 1)) {
 							return fmt.Errorf("connection not counted")
